@@ -429,10 +429,7 @@ pub fn execute(prop: &str, sc: &FramesScript, opts: &ExecOpts) -> Outcome {
             fold(&mut out, prop, &r);
             match &r.value {
                 None => out.violate(prop, "scenario-timeout", "hostile-frames", "the scenario did not finish within 3600 virtual seconds".into()),
-                Some(Err(e)) => {
-                    out.inconclusive = true;
-                    out.log.push(format!("setup error: {e:#}"));
-                }
+                Some(Err(e)) => setup_failed(&mut out, prop, "hostile-frames", &sc.net, e),
                 Some(Ok((reports, other_ok, notes))) => {
                     for (i, (act, rep)) in sc.actions.iter().zip(reports.iter()).enumerate() {
                         let sig = format!("{:?}-on-{:?}", act.first, act.prior).to_lowercase();
